@@ -893,7 +893,10 @@ def runLoop (p : Prog) (gas ip : Nat) (s : VmState) : VmState × Except RunErr U
 structure Outcome where
   err : Option RunErr
 
-def gasFor (s : VmState) (maxInstr : Nat) : Nat := maxInstr + 3 * s.frameCap + 16
+/-- every nested `run_function` consumes one unit of gas without dispatching; the nesting depth is
+    bounded by the call stack (script callees) and by the value stack (native callees push an
+    argument per level) -/
+def gasFor (s : VmState) (maxInstr : Nat) : Nat := maxInstr + 3 * s.frameCap + 3 * s.stack.data.length + 16
 
 /-- `Vm::run(program)` (repaired: the frames pushed by the run are popped again) -/
 def run (p : Prog) (maxInstr : Nat) (s : VmState) : VmState × Option RunErr :=
